@@ -346,7 +346,7 @@ class Binary(Harness):
     functions = ("count_overlap", "intersect", "unique_intersect", "similarity_measures.get_contingency_table (Jaccard/Forbes counts)")
     bounds = {"quick": "contig size 2..4; set a: 1-2 intervals, set b: 1-2 intervals, each set sorted and disjoint; all coordinates",
               "thorough": "contig size 2..6; up to 3 x 2 intervals"}
-    assumptions = ("count_overlap / intersect: each input set is sorted and internally non-overlapping",
+    assumptions = ("count_overlap / intersect: each input set is sorted and internally non-overlapping (contingency: sorted by start only)",
                    "Jaccard/Forbes: the four contingency counts are decided; the final float ratio a*N/((a+b)(a+c)) resp. a/(N-d) is not encoded")
 
     def skeletons(self, tier, seed):
@@ -361,8 +361,10 @@ class Binary(Harness):
         return out
 
     def inputs(self, skel, V):
-        declare(V, skel["na"], "a", size=skel["S"], sorted_starts=True, disjoint=True)
-        declare(V, skel["nb"], "b", size=skel["S"], sorted_starts=True, disjoint=True)
+        # the contingency counts come from masks: overlapping, nested and repeated intervals inside one set are legal there (sorted by start)
+        dj = skel["op"] != "contingency"
+        declare(V, skel["na"], "a", size=skel["S"], sorted_starts=True, disjoint=dj)
+        declare(V, skel["nb"], "b", size=skel["S"], sorted_starts=True, disjoint=dj)
 
     def call(self, skel, x, ctx):
         from bionumpy.arithmetics import intervals as I
